@@ -39,7 +39,7 @@ def main():
         demo_cmd = demo_cmd.replace(f"/tmp/seed{rnd}-{pid}", wt).replace(f"/tmp/seed-{pid}", wt)
         demo_cmd = re.sub(r"cd\s+" + re.escape(wt) + r"\s*&&", "", demo_cmd)
         demo_cmd = re.sub(r"\s{2,}\(.*$", "", demo_cmd, flags=re.S)  # trailing explanatory text
-        demo_cmd = demo_cmd.replace("<worktree>", wt).replace("<checkout>", wt)
+        demo_cmd = demo_cmd.replace("<worktree>", wt).replace("<checkout>", wt).replace("<repo>", wt)
         demo_cmd = re.sub(r"\bcp (demo[\w./]*)", lambda m: "cp " + src + "/" + m.group(1), demo_cmd)
         demo_cmd = re.sub(r"cd\s+" + re.escape(wt) + r"\s*&&", "", demo_cmd)
         if os.environ.get("SEED_DEMO_CMD"):
